@@ -248,6 +248,35 @@ class Engine:
             raise poolmod.HarnessError(f"determinism self-test failed: runs {bad[:5]} gave another event-log digest when re-executed")
         return len(items), 0
 
+    def confirm_hangs(self, clause="liveness"):
+        """The no-progress budget (1000 x (tokens + 50) ticks) assumes at most linear work per statement; some checks are quadratic
+        in the length of one statement. Before a tick-deadline expiry counts as a hang the run is repeated with a 50 times larger
+        budget: if it then ends, it was slow, not stuck (counted as such in the evidence), and the violation is dropped."""
+        import copy
+        keys = [k for k, v in self.found.items() if clause in k[1] and (v.detail or {}).get("hang_kind") in ("ticks", "lexticks")]
+        if not keys:
+            return
+        scs = []
+        for k in keys:
+            sc = copy.deepcopy(self.found[k].scenario)
+            sc["tick_mult"] = 50
+            scs.append(sc)
+        rs = self.pool.map(scs, chunk=1)
+        for k, sc, r in zip(keys, scs, rs):
+            still = False
+            if r.get("killed"):
+                still = True
+            else:
+                for o in r.get("ops", []):
+                    if o.get("outcome") == "hang" or o.get("end") == "hang":
+                        still = True
+            if still:
+                self.found[k].scenario = sc        # the confirmed scenario (large budget) is what gets minimised and replayed
+            else:
+                self.count("slow_not_hung", k[2][:80])
+                del self.found[k]
+                self.found_count.pop(k, None)
+
     def recheck_killed(self):
         """A child that had to be killed (no answer, not even from the in-child backstop: a loop inside C code or a
         blocked call) only counts if it happens again when re-run with few competitors."""
